@@ -106,13 +106,13 @@ func H_C18_scalar() {
 	doc := Map{"t": []any{Map{"x": x, "s": s, "b": b, "nul": nil}}}
 	switch fn {
 	case 0:
-		m, err := oneRow(doc, "SELECT IF(b, x, s) AS v FROM t")
+		m, err := oneRow(doc, "SELECT IF(b, x, s) AS v, IF(b, nul, s) AS tn, IF(b, x, nul) AS fn, IF(b, nul, nul) AS nn FROM t")
 		verif.Assert(err == nil, "no-error")
 		if err == nil {
 			if b {
-				verif.Assert(verif.Eq(m["v"], x), "if-true")
+				verif.Assert(verif.Eq(m["v"], x) && m["tn"] == nil && verif.Eq(m["fn"], x) && m["nn"] == nil, "if-true")
 			} else {
-				verif.Assert(verif.Eq(m["v"], s), "if-false")
+				verif.Assert(verif.Eq(m["v"], s) && verif.Eq(m["tn"], s) && m["fn"] == nil && m["nn"] == nil, "if-false")
 			}
 		}
 	case 1:
